@@ -9,8 +9,19 @@ Definition accts : list nat := [0; 1; 2; 3; 10; 11; 12; 13].
 
 Record otx := { o_tx : tx; o_res : result; o_seqs : list N }.
 
-(** this chain's EIP-155 id, blocks of delivered txs with what the implementation published *)
-Definition case : Type := Z * list (list otx).
+(** this chain's EIP-155 id, the auth account types of [accts] at the start of the history, blocks of
+    delivered txs with what the implementation published *)
+Definition case : Type := (Z * list akind) * list (list otx).
+Definition c_chain (c : case) : Z := fst (fst c).
+
+(** account types: the listed ones for [accts], EthAccount for everything else (accounts the chain creates
+    itself are EthAccounts) *)
+Fixpoint kinds_of (A : list nat) (ks : list akind) : nat -> akind :=
+  match A, ks with
+  | a :: ar, k :: kr => fun x => if Nat.eqb x a then k else kinds_of ar kr x
+  | _, _ => fun _ => KEth
+  end.
+Definition c_kinds (c : case) : nat -> akind := kinds_of accts (snd (fst c)).
 
 Fixpoint state_of (A : list nat) (seqs : list N) : state :=
   match A, seqs with
@@ -26,19 +37,23 @@ Definition result_eqb (a b : result) : bool :=
   pairs_eqb (r_created a) (r_created b).
 
 (** run the model alongside the observed trace *)
-Fixpoint agree (chain : Z) (ds : list dec) (s : state) (os : list otx) : bool :=
+Fixpoint agree (chain : Z) (kinds : nat -> akind) (ld : loader) (ds : list dec) (s : state) (os : list otx) : bool :=
   match os with
   | [] => true
   | o :: r =>
-      let '(s1, x) := deliver chain recover_oracle ds s (o_tx o) in
-      result_eqb x (o_res o) && Nlist_eqb (map s1 accts) (o_seqs o) && agree chain ds s1 r
+      let '(s1, x) := deliver chain recover_oracle kinds ld ds s (o_tx o) in
+      result_eqb x (o_res o) && Nlist_eqb (map s1 accts) (o_seqs o) && agree chain kinds ld ds s1 r
   end.
 
-Definition mismatch (ds : list dec) (c : case) : bool :=
-  negb (agree (fst c) ds init (concat (snd c))).
+(** [mismatch] runs the model with the loader the theorems are proved for ([load_std]; Gen/C07Oblig.v checks
+    that it is the one re-extracted from /repo); [mismatch_with] lets a model sweep try another loader *)
+Definition mismatch_with (ld : loader) (ds : list dec) (c : case) : bool :=
+  negb (agree (c_chain c) (c_kinds c) ld ds init (concat (snd c))).
+
+Definition mismatch (ds : list dec) (c : case) : bool := mismatch_with load_std ds c.
 
 Definition gtrace (os : list otx) : list gstep :=
   map (fun o => (o_tx o, o_res o, state_of accts (o_seqs o))) os.
 
 Definition violates (c : case) : bool :=
-  negb (Pb (fst c) recover_oracle accts init (gtrace (concat (snd c)))).
+  negb (Pb (c_chain c) recover_oracle accts init (gtrace (concat (snd c)))).
